@@ -27,7 +27,7 @@ Definition packer1 (l : list (id * blob)) : list newpack := match l with [] => [
 
 Definition sz0 : sizer := mkSizer 50 0 0.
 Definition w_opts (instant : bool) : popts :=
-  mkOpts 1000%Z 0%Z 0%Z false false false false instant (LPercent 0) LUnlimited sz0 sz0.
+  mkOpts 1000%Z 0%Z 0%Z false false false false instant (LPercent 0) LUnlimited sz0 sz0 1000%Z.
 
 (* the collision scenario: (Tree, 7) lives in tree pack 101 (index 501), (Data, 7) in data pack 102
    (index 502); both are referenced (a directory whose serialisation is also the content of a file) *)
@@ -62,7 +62,7 @@ Definition e_fs : list ifile :=
 Definition e_used : list id := [used_key Data 1; used_key Data 4].
 Definition e_existing : list (id * N) := [(101, 50); (102, 50); (103, 50); (104, 50); (105, 7)].
 Definition e_opts (instant : bool) : popts :=
-  mkOpts 1000%Z 0%Z 100%Z false false false true instant (LPercent 0) LUnlimited sz0 sz0.
+  mkOpts 1000%Z 0%Z 100%Z false false false true instant (LPercent 0) LUnlimited sz0 sz0 1000%Z.
 
 Definition todos_of (r : perr + (plan_t * outcome_t)) : list (id * todo) :=
   match r with inr (pl, _) => map (fun p => (pp_id p, pp_todo p)) (pl_packs pl) | inl _ => [] end.
